@@ -38,9 +38,9 @@ int main(int argc, char **argv) {
             auto wm = boost::get(boost::edge_weight, g);
             for (auto ei = boost::edges(g); ei.first != ei.second; ++ei.first) {
                 if (!first) es << ","; first = false;
-                double w = boost::get(wm, *ei.first);
+                double w = boost::get(wm, *ei.first);      // logged in 1/1000 units; -999999999 unless it is that multiple of 0.001 up to double rounding (a value that went through single precision is not)
                 long long w1000 = std::llround(w * 1000.0);
-                es << "[" << boost::source(*ei.first, g) << "," << boost::target(*ei.first, g) << "," << (std::fabs(w * 1000.0 - (double) w1000) < 1e-6 && std::llabs(w1000) < 2000000000LL ? w1000 : -999999999LL) << "]";
+                es << "[" << boost::source(*ei.first, g) << "," << boost::target(*ei.first, g) << "," << (std::fabs(w * 1000.0 - (double) w1000) <= 1e-9 * std::max(1.0, std::fabs((double) w1000)) && std::llabs(w1000) < 2000000000LL ? w1000 : -999999999LL) << "]";
             }
             es << "]";
             emit(J().s("e", "Read").raw("file", abs).b("threw", threw).s("what", what).i("n", (long) boost::num_vertices(g)).raw("edges", es.str()).s("path", path).str());
